@@ -370,6 +370,8 @@ func diskTwinP2(s *scen.P2Set, start *envfs.FS, o *scen.P2Obs, c *p2Case, r *cor
 	var vres par2.VerifyResult
 	var verr, rerr error
 	var rres par2.RepairResult
+	absIndex := index
+	index = twinSpell(decoy, index)
 	if pi := core.Catch(func() { vres, verr = par2.Verify(index, par2.VerifyOptions{NumGoroutines: g}) }); pi != nil {
 		r.Violate("disk-verify-panic:"+pi.Frame, pi.Value+"\n"+pi.Stack)
 		return
@@ -389,7 +391,11 @@ func diskTwinP2(s *scen.P2Set, start *envfs.FS, o *scen.P2Obs, c *p2Case, r *cor
 		r.Violatef("disk-run-differs-from-in-memory-run:repair-error", "real directory: %v; in-memory: %v", rerr, o.RepairErr)
 	}
 	var a, b []string
+	_ = absIndex
 	for _, p := range rres.RepairedPaths {
+		if !filepath.IsAbs(p) {
+			p = filepath.Join(decoy, p) // reported relative to the working directory, as the index path was given
+		}
 		a = append(a, strings.TrimPrefix(filepath.Clean(p), root))
 	}
 	for _, p := range o.RepairedPaths {
@@ -425,4 +431,20 @@ func genGenerationCases(emit func(*p2Case), autoPrune bool) {
 			}
 		}
 	}
+}
+
+// twinSpell varies how a disk twin names the index file: absolute, relative to the working directory (the path then
+// starts with ".."), or relative with "./" and a doubled separator. The spelling must not matter.
+func twinSpell(cwd, index string) string {
+	rel, err := filepath.Rel(cwd, index)
+	if err != nil {
+		return index
+	}
+	switch twinSeq % 3 {
+	case 1:
+		return rel
+	case 2:
+		return "./" + strings.Replace(rel, "/", "//", 1)
+	}
+	return index
 }
